@@ -929,8 +929,9 @@ static void op_exitprog(const Op* op) {
 }
 
 /* C19: deallocating operations applied to stack / static objects */
+static var badfree_accept(var x) { return x; }
 static void op_badfree(const Op* op) {
-  int kind = (int)(((op->a[0] % 12) + 12) % 12);
+  int kind = (int)(((op->a[0] % 14) + 14) % 14);
   var volatile ex = NULL;
   const char* what = "?"; int changed = 0;
   char cls[128];
@@ -948,6 +949,11 @@ static void op_badfree(const Op* op) {
     case 8: { var a = $I(1), b = $I(2); var t = tuple(a, b); what = "pop_at-stack-tuple"; try { pop_at(t, $I(0)); } catch (e) { ex = e; } changed = len(t) != 2 || get(t, $I(0)) isnt a || get(t, $I(1)) isnt b; break; }
     case 9: { var a = $I(1), b = $I(2); var t = tuple(a, b); what = "resize-stack-tuple"; try { resize(t, 1); } catch (e) { ex = e; } changed = len(t) != 2; break; }
     case 10: { var a = $I(1), b = $I(2); var t = tuple(a, b); what = "concat-stack-tuple"; try { concat(t, tuple(a)); } catch (e) { ex = e; } changed = len(t) != 2; break; }
+    case 12: { var a = $I(1), b = $I(2); var t = tuple(a, b); what = "assign-stack-tuple"; try { assign(t, tuple(b, a, b)); } catch (e) { ex = e; } changed = len(t) != 2 || get(t, $I(0)) isnt a || get(t, $I(1)) isnt b; break; }
+    case 13: { /* a source that can only be iterated (a Filter): the refusal comes from the element-wise push */
+               var a = $I(1), b = $I(2); var t = tuple(a, b); what = "assign-stack-tuple-from-filter";
+               try { assign(t, filter(tuple(b, a), $(Function, badfree_accept))); } catch (e) { ex = e; }
+               changed = len(t) != 2 || get(t, $I(0)) isnt a || get(t, $I(1)) isnt b; break; }
     default: { var a = $I(1), b = $I(2); var t = tuple(a, b); what = "pop-stack-tuple"; try { pop(t); } catch (e) { ex = e; } changed = len(t) != 2 || get(t, $I(1)) isnt b; break; }
   }
   { char k[64]; snprintf(k, sizeof k, "bad.%s", what); stat_add(k, 1); }
@@ -1117,7 +1123,7 @@ static void heap_generate_random(Plan* p, Rng* r, int maxops) {
     int fault = rng_chance(r, 1, 10);
     if (!fault && rng_chance(r, 1, 8)) fault = 2 + (int)rng_below(r, 6);   /* the next collection lands on this operation's n-th allocation */
     int64_t a = rng_below(r, 1000), b = rng_below(r, 1000), c = rng_below(r, 1000);
-    if ((int)d < badpct) { plan_add(p, H_BADFREE, 0, 0, rng_below(r, 12), a, 0, 0, 0, 0); continue; }
+    if ((int)d < badpct) { plan_add(p, H_BADFREE, 0, 0, rng_below(r, 14), a, 0, 0, 0, 0); continue; }
     if (focus == 12 && d < 10) { plan_add(p, H_BADNEW, 0, 0, a, 0, 0, 0, 0, 0); continue; }
     d = rng_below(r, 100);
     if (d < 14) plan_add(p, H_NEWNODE, 0, fault, a, b, 0, 0, 0, 0);
